@@ -91,8 +91,8 @@ class FrameV:
         else:
             raise Unsupported(f"DataFrame from {type(data).__name__}")
         if rowid is None:
-            f = z3.Function(V.fresh_name("rowid"), z3.IntSort(), z3.IntSort())
-            rowid = SArr((self.n,), lambda idx: Sym(f(V.lift(idx[0]))), "int")
+            # a frame built from data: row i is "original row i" (derived frames carry the map to these rows)
+            rowid = SArr((self.n,), lambda idx: idx[0], "int")
         self.rowid = rowid
 
     # -- constructors used by specs ----------------------------------------
@@ -259,6 +259,44 @@ class ExprV:
         rng = {"real": z3.RealSort(), "int": z3.IntSort(), "bool": z3.BoolSort()}[kind]
         f = z3.Function(V.fresh_name("exprcol"), z3.IntSort(), rng)
         return SArr((frame.n,), lambda idx: Sym(f(V.lift(idx[0]))), kind)
+
+
+class ColExpr(ExprV):
+    """pl.col(name): comparisons with a value are evaluated on the frame's column (everything else stays opaque)"""
+
+    def __init__(self, name):
+        ExprV.__init__(self, name)
+
+    def __eq__(self, other):
+        return CmpExpr(self.name, "==", other)
+
+    def __ne__(self, other):
+        return CmpExpr(self.name, "!=", other)
+
+    def __lt__(self, other):
+        return CmpExpr(self.name, "<", other)
+
+    def __le__(self, other):
+        return CmpExpr(self.name, "<=", other)
+
+    def __gt__(self, other):
+        return CmpExpr(self.name, ">", other)
+
+    def __ge__(self, other):
+        return CmpExpr(self.name, ">=", other)
+    __hash__ = object.__hash__
+
+
+class CmpExpr(ExprV):
+    def __init__(self, col, op, value):
+        ExprV.__init__(self, col)
+        self.col, self.op, self.value = col, op, value
+
+    def column_on(self, frame, kind="bool"):
+        if self.col not in frame.cols:
+            _raise("ColumnNotFoundError", self.col)
+        f = frame.cols[self.col].snapshot()
+        return SArr((frame.n,), lambda idx: V.compare(self.op, f((idx[0],)), self.value), "bool")
 
 
 class RowIndexExpr(ExprV):
@@ -518,11 +556,29 @@ class GroupByV:
                                                         z3.And(self.rowf(g, j) >= 0, self.rowf(g, j) < n,
                                                                self.grp(self.rowf(g, j)) == g,
                                                                self.posf(self.rowf(g, j)) == j))))
-            p.conds.append(z3.ForAll([g, j], z3.Implies(z3.And(ing, j >= 0, j + 1 < self.cntf(g)),
-                                                        self.rowf(g, j) < self.rowf(g, j + 1))))
+            j2 = z3.Int(name + "!j2")
+            p.conds.append(z3.ForAll([g, j, j2], z3.Implies(z3.And(ing, j >= 0, j < j2, j2 < self.cntf(g)),
+                                                            self.rowf(g, j) < self.rowf(g, j2))))
+            # maintain_order=True: groups are ordered by the first row they contain
+            g2 = z3.Int(name + "!gb")
+            p.conds.append(z3.ForAll([g, g2], z3.Implies(z3.And(ing, g2 >= 0, g2 < self.G.t, g < g2),
+                                                         self.rowf(g, 0) < self.rowf(g2, 0))))
             p.conds.append(z3.ForAll([i], z3.Implies(z3.And(i >= 0, i < n),
                                                      z3.And(self.posf(i) >= 0, self.posf(i) < self.cntf(self.grp(i)),
                                                             self.rowf(self.grp(i), self.posf(i)) == i))))
+            # derived lemma of the contract above (trusted, spot-checked by tools/conform.py): when no key reappears
+            # after a different key ("contiguous" key column) every group is a run of consecutive rows and the groups
+            # follow one another; the first group always starts at row 0
+            a, b, c = z3.Int(name + "!a"), z3.Int(name + "!b"), z3.Int(name + "!c")
+
+            def keq(x, y):
+                return z3.And(*[V.lift(V.to_real(col((Sym(x),)))) == V.lift(V.to_real(col((Sym(y),)))) for col in cols])
+            contiguous = z3.ForAll([a, b, c], z3.Implies(z3.And(a >= 0, a < b, b < c, c < n, keq(a, c)), keq(a, b)))
+            p.conds.append(z3.Implies(contiguous, z3.And(
+                z3.ForAll([g, j], z3.Implies(z3.And(ing, j >= 0, j + 1 < self.cntf(g)), self.rowf(g, j + 1) == self.rowf(g, j) + 1)),
+                z3.ForAll([g], z3.Implies(z3.And(g >= 0, g + 1 < self.G.t),
+                                          self.rowf(g + 1, 0) == self.rowf(g, self.cntf(g) - 1) + 1)))))
+            p.conds.append(z3.Implies(self.G.t > 0, self.rowf(0, 0) == 0))
         self._cache = {}
 
     def group(self, g):
@@ -672,7 +728,7 @@ def register(REG):
     REG["polars.DataFrame"] = FrameV
     REG["polars.Series"] = SeriesV
     REG["polars.concat"] = pl_concat
-    REG["polars.col"] = lambda name="col", *a, **k: ExprV(name if isinstance(name, str) else "col")
+    REG["polars.col"] = lambda name="col", *a, **k: ColExpr(name) if isinstance(name, str) else ExprV("col")
     REG["polars.lit"] = lambda *a, **k: ExprV("lit")
     REG["polars.len"] = lambda *a, **k: ExprV("len")
     REG["polars.int_range"] = lambda *a, **k: RowIndexExpr()
